@@ -9,6 +9,7 @@ import (
 	"runtime"
 	"runtime/pprof"
 	"sort"
+	"strconv"
 	"strings"
 	"time"
 
@@ -969,6 +970,9 @@ func c14ShardSel(tier string, shard, n int, sel func(name string) bool) *CustomR
 	if tier == "thorough" {
 		bound = 2
 		budget = 12 * time.Minute
+	}
+	if v, err := strconv.Atoi(os.Getenv("VERIF_C14_BUDGET_MIN")); err == nil && v > 0 {
+		budget = time.Duration(v) * time.Minute // exploration beyond the registered budget (not used by the registered commands)
 	}
 	only := os.Getenv("C14_ONLY")
 	scs := c14Scenarios()
